@@ -27,6 +27,7 @@ E[2^f]" — needs the curve group, the 2-descent and the x-only ladder (C08); co
 import SqiProofs.Basis
 import SqiProofs.BasisAlg
 import SqiModel.BasisConcrete
+import SqiGen.Ec
 import Mathlib.Data.ZMod.Basic
 import Mathlib.Tactic.NormNum
 
@@ -325,6 +326,20 @@ theorem difference_point_is_xPmQ_or_xPpQ {F : Type} [Field F] (A xP yP xQ yQ s :
     (s + SqiProofs.BasisAlg.diffT1 A xP xQ) / SqiProofs.BasisAlg.diffZ xP xQ
         = ((-yQ - yP) / (xQ - xP)) ^ 2 - A - xP - xQ :=
   SqiProofs.BasisAlg.difference_point_affine A xP yP xQ yQ s hne hP hQ hs
+
+/-- tie T: the definition regenerated from basis.c (`SqiGen.difference_point`, a2's translator) computes exactly the
+    quantities of the theorem above on normalised inputs (z = 1, C = 1): X = sqrt(radicand) + t1, Z = (xP − xQ)² -/
+theorem difference_point_generated {F : Type} [Field F] (sqrt : F → F) (A xP xQ : F) (E : SqiGen.EcCurve F) (hA : E.A = A) :
+    SqiGen.difference_point sqrt ⟨xP, 1⟩ ⟨xQ, 1⟩ E
+      = ⟨sqrt (SqiProofs.BasisAlg.diffRad A xP xQ) + SqiProofs.BasisAlg.diffT1 A xP xQ, SqiProofs.BasisAlg.diffZ xP xQ⟩ := by
+  unfold SqiGen.difference_point SqiProofs.BasisAlg.diffRad SqiProofs.BasisAlg.diffT1 SqiProofs.BasisAlg.diffZ
+  subst hA
+  simp only
+  have e1 : ((xP * xQ + 1) * (xP + xQ) + (xP * xQ * E.A + xP * xQ * E.A)) * ((xP * xQ + 1) * (xP + xQ) + (xP * xQ * E.A + xP * xQ * E.A)) - (xP - xQ) * (xP * xQ - 1) * ((xP - xQ) * (xP * xQ - 1))
+      = ((xP * xQ + 1) * (xP + xQ) + (xP * xQ * E.A + xP * xQ * E.A)) ^ 2 - ((xP - xQ) * (xP * xQ - 1)) ^ 2 := by ring
+  rw [e1]
+  congr 1
+  ring
 
 /-- non-vacuity over ℚ: the curve y² = x³ + 2x² + x (A = 2) … P = (1, 2), Q = (4, 10): radicand = 1600 = 40² -/
 example : ((2 : ℚ) ^ 2 = 1 ^ 3 + 2 * 1 ^ 2 + 1) ∧ ((10 : ℚ) ^ 2 = 4 ^ 3 + 2 * 4 ^ 2 + 4) ∧
